@@ -20,6 +20,7 @@ import (
 	"github.com/go-jose/go-jose/v4/jwt"
 
 	"github.com/dadrus/heimdall/internal/cache"
+	"github.com/dadrus/heimdall/internal/cache/memory"
 	"github.com/dadrus/heimdall/internal/cache/noop"
 	"github.com/dadrus/heimdall/internal/handler/management"
 	"github.com/dadrus/heimdall/internal/keyholder"
@@ -97,6 +98,27 @@ func c16TimeSim(r *simcore.Run) {
 		}
 		mgmt := management.VerifNewHandler(reg)
 		r.Logf("key store: %d entries, certificate lifetimes %v s, ttl %s, %d finalizers", n, lifetimes, ttl, len(fins))
+		if len(fins) == 2 {
+			// both finalizers serve the same subject at the same instant through one cache: each token names its own issuer
+			mc, _ := memory.NewCache(nil, nil, nil)
+			mc.Start(context.Background())
+			for _, which := range fins {
+				hc := &c16Ctx{ctx: cache.WithContext(context.Background(), mc), headers: http.Header{}, outputs: map[string]any{}}
+				if err := which.f.Execute(hc, &subject.Subject{ID: "carol", Attributes: map[string]any{}}); err != nil {
+					mc.Stop(context.Background())
+					r.Fail("token-not-issued", "jwt-finalizer", "%v", err)
+					return
+				}
+				tok := strings.TrimPrefix(hc.headers.Get("Authorization"), "Bearer ")
+				pl, err := simkeys.JWTPayload(tok)
+				if err != nil || pl["iss"] != which.iss {
+					mc.Stop(context.Background())
+					r.Fail("system-claim-wrong", "iss/shared-cache", "with one cache for both finalizers the token of the finalizer whose signer is named %q carries iss=%v (%v)", which.iss, pl["iss"], err)
+					return
+				}
+			}
+			mc.Stop(context.Background())
+		}
 		at := 0
 		crossed := false
 		for step := 0; step < 3+s.Draw(5, "steps"); step++ {
